@@ -112,7 +112,11 @@ func (H) Gen(prop string, rng *rand.Rand, tier string) *core.Plan {
 			// the next new series get ids beyond the next roaring container boundary (65536 ids per container)
 			p.Ops = append(p.Ops, core.Op{K: "jump", A: int64([]int{65530, 65536, 70000}[rng.Intn(3)])})
 		case r < 72:
-			p.Ops = append(p.Ops, core.Op{K: "qflush", S: fmt.Sprint(rng.Intn(1 << 30))})
+			qf := core.Op{K: "qflush", S: fmt.Sprint(rng.Intn(1 << 30))}
+			if prop == "C11" && rng.Intn(2) == 0 {
+				qf.A = 1 // a row with another field arrives while the flush runs
+			}
+			p.Ops = append(p.Ops, qf)
 		default:
 			p.Ops = append(p.Ops, core.Op{K: "query", S: fmt.Sprint(rng.Intn(1 << 30))})
 		}
@@ -135,6 +139,7 @@ type run struct {
 	series  []seriesDef
 	shardOf []int
 	route   bool // writes are split by lindb's broker-side routing (hash -> shard, timestamp -> family)
+	forceOnly int // > 0: the next write carries exactly field forceOnly-1 (mid-flush writes)
 	points  []point
 	flushes int
 	epoch   int
@@ -226,7 +231,9 @@ func (r *run) write(op core.Op) {
 	// field modes (new plans): a write may carry only the first one or two fields, so files whose metric block
 	// has a single field (a layout of its own) and files with other field sets meet in queries and compactions
 	limit, only := len(fieldSpecs), -1
-	if r.c.Plan.C("fieldmodes", 0) == 1 {
+	if r.forceOnly > 0 {
+		only = r.forceOnly - 1
+	} else if r.c.Plan.C("fieldmodes", 0) == 1 {
 		mrng := rand.New(rand.NewSource(atoi(op.S) ^ 0x5eed))
 		if m := mrng.Intn(4); m < 2 {
 			limit = 1 + m
@@ -284,6 +291,28 @@ func (r *run) write(op core.Op) {
 			return
 		}
 	}
+}
+
+// hasImmutable reports whether a data family of the run's shards has a memory database that is being flushed.
+func (r *run) hasImmutable() bool {
+	for sh := 0; sh < r.shards; sh++ {
+		shard, ok := r.n.Engine.GetShard(r.db, models.ShardID(sh))
+		if !ok {
+			continue
+		}
+		for fi := 0; fi < r.c.Plan.C("families", 1); fi++ {
+			f, err := shard.GetOrCrateDataFamily(Jan1 + int64(fi)*3600000)
+			if err != nil {
+				continue
+			}
+			for _, m := range f.GetState().MemoryDatabases {
+				if m.State == "immutable" {
+					return true
+				}
+			}
+		}
+	}
+	return false
 }
 
 // flush: the steps of the flush checker (metadata -> shard index -> family data), driven from here, or -
@@ -720,6 +749,32 @@ func (r *run) query(op core.Op, duringFlush bool) {
 			r.flush()
 			flushDone = true
 		})
+	}
+	if duringFlush && op.A == 1 {
+		// while the flush runs (the memory database may be switched, its file not yet committed) a row arrives that
+		// carries only another field of the metric, then the statement is asked
+		// half of the time right away, otherwise once a memory database of the metric's shards has been switched
+		if c.Sim.Tape.Choose(2) == 0 {
+			for i := c.Sim.Tape.Choose(4); i > 0; i-- {
+				c.Sim.YieldNow()
+			}
+		} else {
+			for i := 0; i < 600 && !flushDone && !r.hasImmutable(); i++ {
+				c.Sim.YieldNow()
+			}
+			if r.hasImmutable() {
+				c.Sim.Probe("write-while-memdb-immutable")
+			}
+		}
+		other := (q.field + 1 + int(atoi(op.S)%2)) % 3 // one of the sum / min / max fields, not the queried one
+		if other == q.field {
+			other = (other + 1) % 3
+		}
+		r.forceOnly = other + 1
+		r.write(core.Op{K: "write", A: 1 + atoi(op.S)%2, S: op.S + "7"})
+		r.forceOnly = 0
+		before = len(r.points)
+		c.Sim.Probe("write-during-flush")
 	}
 	lay := Layout{}
 	all := make([]int, r.shards)
